@@ -37,7 +37,7 @@ THOROUGH_VARIANTS = 2
 
 FEATURES = ['sphere', 'conic', 'asphere', 'polynomial', 'chebyshev', 'mirror', 'catalogue-glass', 'abbe-glass', 'absorbing-ideal',
             'simple-coating', 'fresnel-coating', 'lambertian', 'gaussian-bsdf', 'aperture', 'obscuration', 'vignetting', 'pol-state',
-            'unpolarized', 'telecentric', 'pickup', 'solve', 'decenter-tilt', 'ranged-glass', 'coated-mirror']
+            'unpolarized', 'telecentric', 'pickup', 'solve', 'decenter-tilt', 'ranged-glass', 'coated-mirror', 'pickup-object-gap', 'flat-with-conic']
 EDITS = ['set_thickness', 'set_thickness0', 'set_radius', 'set_conic', 'set_index', 'scale_system', 'image_solve', 'update', 'optimise']
 
 
@@ -101,14 +101,15 @@ def make_lens(features, v):
     if 'decenter-tilt' in f:
         s2 = dict(s2, dy=0.3, rx=0.02, dx=-0.1, ry=-0.01)
     tele = 'telecentric' in f
+    finite = tele or 'pickup-object-gap' in f
     pol = None
     if 'pol-state' in f or ('fresnel-coating' in f and 'unpolarized' not in f):
         pol = [1.0, 0.5, 0.0, 0.3]
     if 'unpolarized' in f:
         pol = 'unpolarized'
-    if tele:
+    if finite:
         spec = LZ.spec([s1, s2, s3], obj=p['od'][0], ap=('objectNA', p['na']), ftype='object_height', fields=(0.0, 0.6 * p['h'], p['h']),
-                       waves=((0.4861, False), (W, True), (0.6563, False)), tele=True, pol=pol)
+                       waves=((0.4861, False), (W, True), (0.6563, False)), tele=tele, pol=pol)
     else:
         flds = ([0.0, 0.0, 0.0], [0.6 * p['ang'], 0.1, 0.05], [p['ang'], 0.2, 0.15]) if 'vignetting' in f else (0.0, 0.6 * p['ang'], p['ang'])
         spec = LZ.spec([s1, s2, s3], obj=LZ.INF, ap=('EPD', p['epd']), ftype='angle', fields=flds,
@@ -122,6 +123,12 @@ def make_lens(features, v):
         o.pickups.add(1, 'radius', 2, scale=-1.0, offset=0.5)
     if 'solve' in f:
         o.solves.add('marginal_ray_height', 4, 0.0)
+    if 'pickup-object-gap' in f and not math.isinf(float(np.ravel(o.surface_group.positions[0])[0])):
+        # the object distance picks up a gap of the lens (symmetric relay)
+        o.pickups.add(2, 'thickness', 0, scale=2.0, offset=40.0)
+        o.update()
+    if 'flat-with-conic' in f and type(o.surface_group.surfaces[3].geometry).__name__ == 'Plane':
+        o.set_conic(-1.0, 3)
     return o
 
 
@@ -247,6 +254,21 @@ def run_unit(unit):
             finally:
                 os.remove(path)
         routes.append(('file', via_file))
+    if unit['history'] == [] :
+        def via_checkpoint():
+            # the dictionary is a checkpoint: edits made to the lens afterwards must not reach into it
+            keep = copy.deepcopy(d)
+            o_live = Optic.from_dict(copy.deepcopy(d))
+            d_live = o_live.to_dict()
+            for e_ in ('set_radius', 'set_conic', 'set_thickness'):
+                apply_edit(o_live, e_, v)
+            for k_, s_ in enumerate(o_live.surface_group.surfaces):
+                if hasattr(s_.geometry, 'c') and type(s_.geometry).__name__ == 'EvenAsphere':
+                    o_live.set_asphere_coeff(7e-6, k_, 0)
+            if normalise(d_live) != normalise(keep):
+                raise AssertionError('to_dict() result changed when the lens was edited afterwards: ' + str(canon.diff(normalise(keep), normalise(d_live)))[:300])
+            return Optic.from_dict(d_live)
+        routes.append(('checkpoint-dict-then-edits', via_checkpoint))
     for rname, make in routes:
         cond = f'route={rname},features={cond_f}'
         try:
@@ -262,6 +284,10 @@ def run_unit(unit):
             r1 = float(o.surface_group.surfaces[1].geometry.radius)
             r2 = float(o.surface_group.surfaces[2].geometry.radius)
             if abs(r2 - (-r1 + 0.5)) > 1e-9 * max(1.0, abs(r1)):
+                cond = 'pickup-not-yet-applied-when-saved'
+        if c2 != c0 and 'pickup-object-gap' in feats:
+            z = np.asarray(o.surface_group.positions, float).ravel()
+            if abs((z[1] - z[0]) - (2.0 * (z[3] - z[2]) + 40.0)) > 1e-9 * max(1.0, abs(z[0])):
                 cond = 'pickup-not-yet-applied-when-saved'
         if c2 != c0:
             part.violation(PID, 'same-prescription-after-reload', f'Optic.from_dict[{rname}]', cond, det, observed=canon.diff(c0, c2),
